@@ -14,6 +14,8 @@ F4(sn, sr, dn, dr) == [sn |-> sn, sr |-> sr, dn |-> dn, dr |-> dr]
 AllUnits == {"L", "g", "mol", "U"}
 QuickUnits == {"L", "g"}
 HalfFracs == {R(1, 2), One, R(3, 2), R(-1, 2)}
+HalfOnly == {R(1, 2)}
+Litres == {"L"}
 
 (***************************************************************************)
 (* CC: three free-standing containers, transfers in all four units         *)
@@ -199,6 +201,11 @@ SOL_From(quick) ==
   \* a high dilution (1:80): a small fraction of the stock in much solvent - the two volumes fall into different prefix ranges
   \cup {FR("k1", "N", "W", R(1, 320), I(4), nu, "L", "L") : nu \in {"mol", "g"}}
 SOL_FromQuick == SOL_From(TRUE)
+\* SOL2: a container that has been a solvent, then changes its composition, then is a solvent again (what create_solution
+\* derives from a solvent container - effective molar mass, density - belongs to that composition only): depth 3
+SOL2_Forms == <<F4("z", "-", "v", "-")>>
+SOL2_Cases == {SC(<<"N">>, "v", <<One>>, I(6), given, <<nu>>, <<du>>, <<"g">>, "L") :
+                 given \in {"cq", "ct", "qt"}, nu \in {"mol", "g"}, du \in {"L", "g"}}
 SOL_FromFull == SOL_From(FALSE)
 
 (***************************************************************************)
